@@ -49,7 +49,13 @@ def gen_fields(rng, n=None):
             d = {"kind": "value", "v": {"t": "none"}}
         else:
             d = {"kind": "value", "v": G.gen_value(rng, t)}
-        fields.append({"name": nm, "ty": t, "default": d})
+        fld = {"name": nm, "ty": t, "default": d}
+        # custom argparse arguments that must not change parsing: a metavar, a help text
+        if rng.random() < 0.15:
+            fld["metavar"] = rng.choice(["N", "VALUE", "X"])
+        if rng.random() < 0.1:
+            fld["help"] = "some help text"
+        fields.append(fld)
     # dataclasses demand fields without a default first
     fields.sort(key=lambda f: f["default"]["kind"] != "missing")
     return fields
